@@ -74,7 +74,8 @@ class SchemaAnalyzer:
                 if cumulated:
                     key = ".".join(cumulated)
                     target = target.setdefault(key, {})
-                target[fname] = {}
+                # a field may be met several times (one mapping per document type): keep what is already known
+                target.setdefault(fname, {})
         return result
 
     def object_fields(self):
